@@ -87,7 +87,7 @@ pub struct Mix {
 pub const N_KINDS: usize = 24;
 
 const PIECES_PLAIN: &[&str] = &["a", "bc", "Z", " ", "_", "0", "{", "}", "\"", "\\", "(", ",", ")", ".."];
-const PIECES_NL: &[&str] = &["\n", "\n", "x\ny", "\n\n", "end\n", "\nq", "    ", ",\n"];
+const PIECES_NL: &[&str] = &["\n", "\n", "x\ny", "\n\n", "end\n", "\nq", "    ", ",\n", "\r\n", "a\r\nb", "\u{2028}", "\u{85}", "\n\n\n", "\r"];
 const PIECES_MB: &[&str] = &["é", "漢", "😀", "ß", "\u{301}", "\u{200b}"];
 pub const NAMES: &[&str] = &["", "T", "Foo", "type", "Ünï", "a b", "X1", "_", "r#x"];
 const FIELD_NAMES: &[&str] = &["a", "b", "type", "x_1", "ö", ""];
@@ -112,7 +112,7 @@ pub fn gen_text(r: &mut Rng, m: &Mix, max_pieces: usize) -> String {
 fn gen_char(r: &mut Rng, m: &Mix) -> char {
     let k = r.below(10);
     if m.newlines && k < 3 {
-        '\n'
+        *r.pick(&['\n', '\n', '\n', '\r', '\u{2028}'])
     } else if m.multibyte && k < 5 {
         *r.pick(&['é', '漢', '😀', '\u{301}'])
     } else {
